@@ -13,8 +13,10 @@ from buidl.helper import (
 class MerkleTree:
     def __init__(self, total):
         self.total = total
-        # compute max depth math.ceil(math.log(self.total, 2))
-        self.max_depth = math.ceil(math.log(self.total, 2))
+        # compute max depth: ceil(log2(total)), in exact integer arithmetic
+        if self.total < 1:
+            raise ValueError("a merkle tree needs at least one leaf")
+        self.max_depth = (self.total - 1).bit_length()
         # initialize the nodes property to hold the actual tree
         self.nodes = []
         # loop over the number of levels (max_depth+1)
